@@ -374,8 +374,8 @@ def check_regress(case, impl, nnls):
             return None
         return fail(case, 'reject', f'{name}: model and pooled data lack different entries but no error was raised',
                     impl, exp, method=case['method'], nn=case['nn'])
-    if impl.get('exc') == 'Timeout' or any(t != t for t in exp['theta']):
-        return None                      # non-terminating `_nn_least_squares` (not a C13 matter)
+    if any(t != t for t in exp['theta']):
+        return None                      # the reference call itself did not return a fit
     if 'exc' in impl:
         return fail(case, 'regress', f'{name} raised {impl["exc"]} on a common mask', impl, exp,
                     method=case['method'], nn=case['nn'])
